@@ -100,7 +100,7 @@ func LiteDump(l *lite.DB) (*Dump, error) {
 			if t.WithoutRowid && ix.Origin == "pk" {
 				continue // the table itself
 			}
-			ob, ok := ix.OrderBy(KnownIndexExprs[strings.ToLower(ix.Name)])
+			ob, ok := ix.OrderBy(KnownIndexExprs[FoldID(ix.Name)])
 			where := ""
 			if ix.Partial {
 				if ix.Where == "" {
@@ -114,8 +114,8 @@ func LiteDump(l *lite.DB) (*Dump, error) {
 				if err != nil {
 					return nil, err
 				}
-				td.Idx[strings.ToLower(ix.Name)] = rows
-				td.IdxOrdered[strings.ToLower(ix.Name)] = false
+				td.Idx[FoldID(ix.Name)] = rows
+				td.IdxOrdered[FoldID(ix.Name)] = false
 				continue
 			}
 			q := fmt.Sprintf("SELECT %s FROM %s%s ORDER BY %s", sel, QI(t.Name), where, ob)
@@ -123,10 +123,10 @@ func LiteDump(l *lite.DB) (*Dump, error) {
 			if err != nil {
 				return nil, fmt.Errorf("%s: %v", q, err)
 			}
-			td.Idx[strings.ToLower(ix.Name)] = rows
-			td.IdxOrdered[strings.ToLower(ix.Name)] = true
+			td.Idx[FoldID(ix.Name)] = rows
+			td.IdxOrdered[FoldID(ix.Name)] = true
 		}
-		d.Tables[strings.ToLower(t.Name)] = td
+		d.Tables[FoldID(t.Name)] = td
 	}
 	return d, nil
 }
@@ -160,7 +160,7 @@ func littleDump(h *sqlittle.DB, d *sdb.Database, _ bool) (*Dump, error) {
 				if rejected == nil {
 					rejected = map[string]string{}
 				}
-				rejected[strings.ToLower(n)] = e.Error()
+				rejected[FoldID(n)] = e.Error()
 				continue
 			}
 			schemas = append(schemas, sch{n, s})
@@ -200,9 +200,9 @@ func littleDump(h *sqlittle.DB, d *sdb.Database, _ bool) (*Dump, error) {
 			if err != nil {
 				return nil, fmt.Errorf("indexedselect %s %s: %v", sc.name, ix.Index, err)
 			}
-			td.Idx[strings.ToLower(ix.Index)] = rows
+			td.Idx[FoldID(ix.Index)] = rows
 		}
-		out.Tables[strings.ToLower(sc.name)] = td
+		out.Tables[FoldID(sc.name)] = td
 	}
 	return out, nil
 }
@@ -237,7 +237,7 @@ func DumpDiff(got, want *Dump) string {
 	for _, n := range wn {
 		g, w := got.Tables[n], want.Tables[n]
 		// column names are identifiers: case-insensitive in SQLite
-		if !strings.EqualFold(strings.Join(g.Cols, ","), strings.Join(w.Cols, ",")) {
+		if !SameID(strings.Join(g.Cols, ","), strings.Join(w.Cols, ",")) {
 			return fmt.Sprintf("table %s columns: got %v want %v", n, g.Cols, w.Cols)
 		}
 		if g.WithoutRowid != w.WithoutRowid {
